@@ -1,9 +1,10 @@
 #!/bin/bash
 # usage: seed_eval.sh <prop> <k> [other props to run for cross-talk]
-# Confirms a seeded change (from /tmp/mut/<prop>-out) in a scratch worktree and runs ./check against it.
+# env: MUT_DIR (default /tmp/mut), SEED_WT (scratch worktree, default /tmp/seedwt), VERIF_DIR (verif checkout to run)
+# Confirms a seeded change (from $MUT_DIR/<prop>-out) in a scratch worktree and runs ./check against it.
 P=$1; K=$2; shift 2
-SRC=/tmp/mut/$P-out
-WT=/tmp/seedwt
+SRC=${MUT_DIR:-/tmp/mut}/$P-out
+WT=${SEED_WT:-/tmp/seedwt}
 export CARGO_NET_OFFLINE=true
 if [ ! -d $WT ]; then git -C /repo worktree add -q --detach $WT HEAD; else git -C $WT checkout -q --detach $(git -C /repo rev-parse HEAD) 2>/dev/null; git -C $WT checkout -q -- . ; git -C $WT clean -fdq tests/; fi
 VDIR=${VERIF_DIR:-/verif}
